@@ -2256,3 +2256,101 @@ func init() {
 		}),
 	)
 }
+
+func init() {
+	loadedHash := func(id string) core.Rule {
+		return rule(id, "a node served from the in-memory node caches carries the hash it was asked for and is marked persisted", 2, func(r *Run) {
+			fn := mdb + "getNodeMemTree"
+			setsField := func(field string, val core.ExprPred) func(c *core.Ctx, n *core.GNode) bool {
+				return func(c *core.Ctx, n *core.GNode) bool {
+					found := false
+					core.InspectNode(n.Ast, func(x ast.Node) bool {
+						switch s := x.(type) {
+						case *ast.AssignStmt:
+							for i, l := range s.Lhs {
+								if sel, ok := ast.Unparen(l).(*ast.SelectorExpr); ok && sel.Sel.Name == field && len(s.Rhs) == len(s.Lhs) && val(c, s.Rhs[i]) {
+									found = true
+								}
+							}
+						case *ast.KeyValueExpr:
+							if id, ok := s.Key.(*ast.Ident); ok && id.Name == field && val(c, s.Value) {
+								found = true
+							}
+						}
+						return true
+					})
+					return found
+				}
+			}
+			isTrue := func(c *core.Ctx, e ast.Expr) bool {
+				tv, ok := c.Info.Types[e]
+				return ok && tv.Value != nil && tv.Value.String() == "true"
+			}
+			sp := &core.FlowSpec{Nodes: []core.NodeGen{
+				{Fact: "hash-set", Gen: setsField("hash", core.IsObj("param:0"))},
+				{Fact: "persisted-set", Gen: setsField("persisted", isTrue)},
+			}}
+			// a helper that builds the node may set `persisted`; the hash is the caller's parameter and must be set here
+			if f := r.W.Func(fn); f != nil {
+				for callee := range calleeSet(f) {
+					if h := r.W.Func(callee); h != nil && h.Pkg == f.Pkg {
+						c := h.Ctx()
+						ast.Inspect(h.Body(), func(x ast.Node) bool {
+							if kv, ok := x.(*ast.KeyValueExpr); ok {
+								if id, ok := kv.Key.(*ast.Ident); ok && id.Name == "persisted" && isTrue(c, kv.Value) {
+									sp.Calls = append(sp.Calls, called("persisted-set", callee))
+								}
+							}
+							return true
+						})
+					}
+				}
+			}
+			core.Dominated{Fn: fn, Spec: sp, Sink: core.SinkPred{Label: "return of a cached node", Match: func(fl *core.Flow, n *core.GNode) bool {
+				rs, ok := n.Ast.(*ast.ReturnStmt)
+				return ok && len(rs.Results) == 2 && !isNilLit(fl.C, rs.Results[0]) && isNilLit(fl.C, rs.Results[1])
+			}}, Need: []Fact{"hash-set", "persisted-set"}, Min: 2}.Check(r)
+		})
+	}
+	extend("C03", "R03e (added after a seeded change was missed): both in-memory node caches hand out nodes that carry the requested hash (a node without it gives its parent an empty sibling hash in a proof).", loadedHash("R03e"))
+	extend("C01", "R01f (same rule as R03e: a loaded node must be published under the hash it was requested by).", loadedHash("R01f"))
+}
+
+func init() {
+	extend("C20", "R20d (added after a seeded change was missed): the encoder does not modify the integer it is given — no value-changing big.Int method is called with the parameter as its destination (fork choice logs the compact form of both total difficulties right before comparing them).",
+		rule("R20d", "BigToCompact leaves its argument untouched", 1, func(r *Run) {
+			f := r.Fn("common/difficulty.BigToCompact")
+			if f == nil {
+				return
+			}
+			c := f.Ctx()
+			readonly := map[string]bool{"Sign": true, "Bytes": true, "Bits": true, "BitLen": true, "Cmp": true, "CmpAbs": true, "Int64": true, "Uint64": true, "IsInt64": true, "IsUint64": true, "String": true, "Text": true, "Bit": true, "TrailingZeroBits": true, "FillBytes": true, "Format": true, "Append": true, "ProbablyPrime": true}
+			n, bad := 0, ""
+			ast.Inspect(f.Body(), func(x ast.Node) bool {
+				call, ok := x.(*ast.CallExpr)
+				if !ok {
+					return true
+				}
+				sel, ok := ast.Unparen(call.Fun).(*ast.SelectorExpr)
+				if !ok || !core.IsObj("param:0")(c, sel.X) {
+					return true
+				}
+				fn := core.Callee(c.Info, call)
+				if fn == nil || fn.Pkg() == nil || fn.Pkg().Path() != "math/big" {
+					return true
+				}
+				n++
+				if !readonly[fn.Name()] {
+					bad = fmt.Sprintf("%s: `%s` writes its result into the caller's integer", r.W.Pos(call.Pos()), core.ExprStr(call))
+				}
+				return true
+			})
+			label := f.Name + " calls only read-only big.Int methods on its parameter"
+			if bad == "" && n > 0 {
+				r.OK(label, r.W.Pos(f.Node().Pos()), fmt.Sprintf("%d method call(s) on the parameter, all read-only", n))
+			} else {
+				r.Fail(label, r.W.Pos(f.Node().Pos()), bad)
+			}
+		}),
+	)
+}
